@@ -91,6 +91,13 @@ def r1(idx, rep):
     cr = [c for c in walk_no_nested(nx.node) if isinstance(c, ast.Call) and call_name(c) == "reader"]
     kw = {k.arg: unparse(k.value) for k in cr[0].keywords} if len(cr) == 1 else {}
     rep.check(kw == {"delimiter": "self._delimiter", "quotechar": "self._quotechar"}, "R1", f"{ci.file}::CsvDataReader.next csv.reader dialect", f"{kw}", K.where(nx, nx.node))
+    # csv.reader reads the opened file itself (no filtering/rewriting layer between the bytes and the parser)
+    withs = [w for w in walk_no_nested(nx.node) if isinstance(w, ast.With)]
+    fvar = unparse(withs[0].items[0].optional_vars) if withs and withs[0].items[0].optional_vars is not None else None
+    opened = unparse(withs[0].items[0].context_expr.args[0]) if withs and isinstance(withs[0].items[0].context_expr, ast.Call) and withs[0].items[0].context_expr.args else None
+    src0 = unparse(cr[0].args[0]) if len(cr) == 1 and cr[0].args else None
+    rep.check(src0 is not None and src0 == fvar and opened == "self._path", "R1", f"{ci.file}::CsvDataReader.next parses the file itself",
+              f"csv.reader reads `{src0}` (file variable `{fvar}`, opened `{opened}`): a layer between the file and the parser can alter cell text", K.where(nx, nx.node))
     # the reader yields csv.reader's rows unchanged
     ys = [unparse(n.value) for n in walk_no_nested(nx.node) if isinstance(n, ast.Yield)]
     fors = [unparse(n.target) for n in walk_no_nested(nx.node) if isinstance(n, ast.For)]
